@@ -52,6 +52,9 @@ pub const FC_SPLIT_PEEK: u32 = 55;
 /// `FixedCapacityMemoryPool::allocate`: after `active_blocks` was incremented, before the derived
 /// utilization gauge is stored
 pub const FC_ALLOC_UTIL: u32 = 56;
+/// `FixedCapacityMemoryPool::publish_utilization`: between the load of `active_blocks` and the store
+/// of the gauge derived from it
+pub const FC_UTIL_STORE: u32 = 57;
 /// fixed_capacity_pool.rs `deallocate_to_free_list`
 pub const FC_PUSH_LOAD: u32 = 61;
 pub const FC_PUSH_NEXT: u32 = 62;
